@@ -34,6 +34,13 @@ class C02(PropBase):
             s = gen.mutate_string(v.sid(v.any_type(rng), rng), rng, v)
             if '?' not in s:
                 out.append(Case('obs', [['s', s]], 'malformed'))
+        # free values holding the 'optional' sign of the query syntax inside (only a LEADING '~' has a meaning there)
+        for t in v.order:
+            opens = [i for i, (k, e) in enumerate(v.types[t]) if v.alternatives(e) is None]
+            for _ in range(3 if opens else 0):
+                segs = v.sid(t, rng).split('/')
+                segs[rng.choice(opens)] = rng.choice(['dagger~old', 'sim~b', 'a~', 'x~~y'])
+                out.append(Case('obs', [['s', '/'.join(segs)]], 'structured'))
         # strings accepted by several templates: a typed Sid is its (type, fields), whatever else was built in the process
         seen = set()
         for t in v.order:
@@ -47,7 +54,7 @@ class C02(PropBase):
                 seen.add(s)
                 t1, f1 = acc[0]
                 t2, f2 = rng.choice(acc[1:])
-                steps = [['sid', [['s', s]]], ['copy', [['s', t2 + ':' + s]]], ['copy', [['s', t1 + ':' + s]]], ['sid', [['s', s]]],
+                steps = [['sid', [['s', s]]], ['copy', [['s', t2 + ':' + s]]], ['sid', [['x', [s, t2, f2]]]], ['copy', [['s', t1 + ':' + s]]], ['sid', [['s', s]]],
                          ['eq', [['s', t1 + ':' + s], ['s', t2 + ':' + s]]], ['eq', [['s', t2 + ':' + s], ['s', t2 + ':' + s]]],
                          ['sid', [['f', f2]]], ['sid', [['s', t2 + ':' + s]]]]
                 if rng.random() < 0.5:
@@ -139,7 +146,7 @@ class C02(PropBase):
         if impl[0] != 'ok':
             return '%s rebuild raised %r' % (case.stream, impl)
         got = impl[1]
-        if case.stream == 'query' and any(set(val) & QUERY_UNSAFE or val == '' for _, val in fields):
+        if case.stream == 'query' and any(set(val) & (QUERY_UNSAFE - set('~')) or val.startswith('~') or val == '' for _, val in fields):
             return None     # the property restricts the query round trip to url-safe non-empty values
         if case.stream in ('fields', 'query'):
             # rebuilt from the key set: the type is the first type whose template accepts; by the property it must be the same Sid
